@@ -123,6 +123,8 @@ class KnownFindings:
                 continue
             if any(ob.tags.get(k) != v for k, v in e.get("tags", {}).items()):
                 continue
+            if any(ob.tags.get(k) not in vs for k, vs in e.get("tag_any", {}).items()):
+                continue
             env = dict(REGION_ENV)
             env.update(vars)
             env.update(ob.observe)
